@@ -18,12 +18,13 @@ import (
 // fair schedule, within the horizon, every send has returned nil and the partner's
 // application received its payload. Quiescence with a pending send = violation.
 type c23World struct {
-	cw       *sig.ClientWorld
-	toIssue  []pendingOp
-	issued   int
-	maxReset int
-	resets   int
-	third    bool
+	cw                   *sig.ClientWorld
+	toIssue              []pendingOp
+	issued               int
+	maxReset             int
+	resets               int
+	third                bool
+	restarts, maxRestart int
 }
 
 type pendingOp struct {
@@ -41,7 +42,7 @@ func init() {
 		Real: []string{"signaling/rpc/server.Server (Session, Listen)", "signaling/rpc/client.Client (Send, Recv, AddPeerRef, session tracker routine)",
 			"util keyed.KeyedRefCount, routine.RoutineContainer, backoff", "peer.SignedMsg signing and verification"},
 		Stub:       []string{"srpc transport replaced by simulator-owned message streams (worlds/sig.Net)", "stream identity callback", "util/broadcast lock instrumented (scheduling points)"},
-		FaultKinds: []string{"fault:stream-reset", "fault:clock-jump"},
+		FaultKinds: []string{"fault:stream-reset", "fault:clock-jump", "fault:relay-restart"},
 	})
 }
 
@@ -63,6 +64,9 @@ func (w *c23World) Setup(s *dsim.Sim) {
 		w.cw.AddClient(n, bo)
 	}
 	w.maxReset = t.Draw(4, "max-resets")
+	if t.Bool(1, 3, "relay-restarts") {
+		w.maxRestart = 1 + t.Draw(2, "max-restarts")
+	}
 	nA := t.Draw(3, "sends-A")
 	nB := t.Draw(3, "sends-B")
 	if nA+nB == 0 {
@@ -96,6 +100,13 @@ func (w *c23World) Actions(s *dsim.Sim, add func(dsim.Action)) {
 			op.fire = nil
 			w.issued++
 			f()
+		}})
+	}
+	if s.Phase == dsim.PhaseChaos && w.restarts < w.maxRestart {
+		add(dsim.Action{Name: "5flt:relay-restart", Weight: 1, Fault: true, Fire: func() {
+			w.restarts++
+			s.Count("fault:relay-restart")
+			w.cw.Net.RestartRelay()
 		}})
 	}
 	if w.resets < w.maxReset {
